@@ -590,7 +590,9 @@ class Interp:
             for f in e["fields"]:
                 try:
                     fields[str(f["f"])] = self.ev(f["e"], env, depth)
-                except Unknown:
+                except Unknown as u_:
+                    if "core::panicking" in str(u_):
+                        raise               # an abort while a field is computed is an abort of the whole expression
                     fields[str(f["f"])] = Opaque("field " + str(f["f"]))
             if "base" in e:
                 b = self.ev(e["base"], env, depth)
